@@ -331,7 +331,8 @@ pub fn run(tier: Tier, replay: Option<&str>) {
     let mut total_cases = 0u64;
     let mut samples = vec![];
     for region in &regions {
-        let singles: Vec<Cmd> = cmds::single_commands(region, th).into_iter().filter(handled_cmd).collect();
+        // (quick: the full value domain for one dynamic-plan region, the reduced one elsewhere)
+        let singles: Vec<Cmd> = cmds::single_commands(region, th || *region == "EU868").into_iter().filter(handled_cmd).collect();
         let blocks = cmds::link_adr_blocks(th);
         // answer-budget overflows: k DevStatusReq followed by each kind of request (port 0)
         let mut budget = vec![];
@@ -403,11 +404,9 @@ pub fn run(tier: Tier, replay: Option<&str>) {
                             for c in &judged {
                                 cases.push(mk(vec![p1.clone()], c, false, false));
                             }
-                            if th {
-                                for (_, p2) in dng.iter().take(4) {
-                                    for c in judged.iter().step_by(5) {
-                                        cases.push(mk(vec![p1.clone(), p2.clone()], c, false, false));
-                                    }
+                            for (_, p2) in dng.iter().take(if th { dng.len() } else { 4 }) {
+                                for c in judged.iter().step_by(if th { 5 } else { 1 }) {
+                                    cases.push(mk(vec![p1.clone(), p2.clone()], c, false, false));
                                 }
                             }
                         }
